@@ -77,6 +77,40 @@ def run_checks(protos):
                         bad.append(('object', 'an unpickled instance of %s provides %r instead of %r' % (cls.__name__, ifset(providedBy(o2)), ifset(p))))
                 except Exception as e:
                     bad.append(('provides', 'pickling the declaration of an instance of %s failed: %r' % (cls.__name__, e)))
+    # class-provided declarations with a history: declared, looked up through a registry (which subscribes to the
+    # declaration), declared again -- the pickled form must describe the current declaration
+    from zope.interface.adapter import AdapterRegistry
+    for warm in (False, True):
+        for how in ('also', 'directly', 'nolonger'):
+            n += 1
+            cls = type('Hist', (fx.Base,), {'__module__': fx.__name__})
+            setattr(fx, 'Hist', cls)        # importable under its name, as pickling by reference requires
+            directlyProvides(cls, fx.IMarker)
+            if warm:
+                reg = AdapterRegistry()
+                reg.register([fx.IMarker], fx.IA, '', lambda o: ('adapter', o))
+                reg.lookup((providedBy(cls),), fx.IA)
+                reg.queryAdapter(cls, fx.IA)
+            if how == 'also':
+                alsoProvides(cls, fx.IC)
+            elif how == 'directly':
+                directlyProvides(cls, fx.IC)
+            else:
+                alsoProvides(cls, fx.IC)
+                noLongerProvides(cls, fx.IMarker)
+            for proto in (0, 2, pickle.HIGHEST_PROTOCOL):
+                cp = providedBy(cls)
+                r = roundtrip(cp, proto)
+                if ifset(r) != ifset(cp):
+                    bad.append(('class-provides-history', 'after %s (registry lookups before: %s) the class declaration provides %r but unpickles providing %r' % (how, warm, ifset(cp), ifset(r))))
+            ob = fx.Adds()
+            directlyProvides(ob, fx.IMarker)
+            if warm:
+                reg.lookup((providedBy(ob),), fx.IA)
+            alsoProvides(ob, fx.IB)
+            r = roundtrip(providedBy(ob), 2)
+            if ifset(r) != ifset(providedBy(ob)):
+                bad.append(('provides-history', 'instance declaration with history unpickles providing %r instead of %r' % (ifset(r), ifset(providedBy(ob)))))
     # declaration history before pickling: also/noLonger
     ob = fx.Adds()
     alsoProvides(ob, fx.IMarker)
